@@ -12,6 +12,7 @@ import (
 	"fmt"
 	"net"
 	"slices"
+	"strconv"
 	"strings"
 	"time"
 
@@ -31,7 +32,7 @@ func DialRedirectFromHostPortPairs(subs []HostPortPair) DialRedirectFunc {
 		}
 
 		for _, s := range subs {
-			if (s.Src.Host == "" || strings.EqualFold(s.Src.Host, host)) && (s.Src.Port == "" || s.Src.Port == port) { //nolint:gocritic // nestingReduce: invert if cond, replace body with `continue`, move old body after the statement
+			if (s.Src.Host == "" || strings.EqualFold(s.Src.Host, host)) && (s.Src.Port == "" || samePort(s.Src.Port, port)) { //nolint:gocritic // nestingReduce: invert if cond, replace body with `continue`, move old body after the statement
 				h := s.Dst.Host
 				if h == "" {
 					h = host
@@ -46,6 +47,19 @@ func DialRedirectFromHostPortPairs(subs []HostPortPair) DialRedirectFunc {
 
 		return network, address
 	}
+}
+
+// samePort compares two ports as the dialer reads them: as numbers when both are numbers ("080" is port 80).
+func samePort(a, b string) bool {
+	if a == b {
+		return true
+	}
+	x, err := strconv.ParseUint(a, 10, 16)
+	if err != nil {
+		return false
+	}
+	y, err := strconv.ParseUint(b, 10, 16)
+	return err == nil && x == y
 }
 
 type DialRetryConfig struct {
